@@ -361,11 +361,52 @@ def run(ck):
     def from_get(n_):
         vs = {d_["var"] for d_ in g.events("decl") if d_.get("var") and re.search(r"get<%d>\(" % n_, (d_.get("init") or {}).get("t") or "")}
         return lib.derived_vars(g, vs) if vs else set()
+    # (only the invocation of a route that came out of findRoute is judged: its bindings are the lookup's.  Another way of reaching a
+    # handler -- an exact-match table for parameter-free routes -- has no bindings to pass)
+    r0 = from_get(0)
+    ih_all = ih
+    ih = [e for e in ih if ((e.get("recv") or {}).get("root") or "").split("@")[0] in {v_.split("@")[0] for v_ in r0} or re.search(r"get<0>\(", (e.get("recv") or {}).get("t") or "")]
+    ck.require(ih, "no handler invocation on the route returned by findRoute in Router::route (%d invocation(s) in all)" % len(ih_all))
     t_ih = (ih[0].get("t") or "") if ih else ""
     has1 = bool(re.search(r"get<1>\(", t_ih)) or any(re.search(r"\b%s\b" % re.escape(v_.split("@")[0]), t_ih) for v_ in from_get(1))
     has2 = bool(re.search(r"get<2>\(", t_ih)) or any(re.search(r"\b%s\b" % re.escape(v_.split("@")[0]), t_ih) for v_ in from_get(2))
     ok = bool(ih) and has1 and has2
     ck.ob("C10-R3", "route/handler-gets-bindings", ok, ih[0].loc if ih else g.loc, g, "invokeHandler(Request(req, params, splats), resp)", nontrivial=False)
+
+    # ---------------- R8: what addRoute files, removeRoute unfiles ----------------
+    ck.rule("C10-R8", "E mod-set agreement of sibling routines",
+            "every member of Router in which Router::addRoute files a route (directly or through the helpers it calls on this) is also "
+            "updated by Router::removeRoute: a second index of the routes (a fast-path table, a cache) that only registration maintains "
+            "keeps serving a route after it was removed", 1)
+    def router_members_written(fn_):
+        out_ = set()
+        for h_ in lib.region(prog, fn_, within=lambda h_: h_.cls == R + "Router"):
+            for e_ in h_.events(("call", "assign")):
+                tgt = (e_.get("recv") if e_["k"] == "call" else e_.get("lhs")) or {}
+                fq = strip_tmpl(tgt.get("f") or "")
+                root_f = fq
+                # a write through a reference obtained from a member (`auto& r = routes[method]; r.addRoute(..)`) counts for the member
+                if not fq.startswith(R + "Router::") and tgt.get("root"):
+                    for d_ in h_.events("decl"):
+                        if d_.get("var") == tgt.get("root"):
+                            for r_ in d_.get("refs") or []:
+                                if r_.startswith("f:" + R + "Router::"):
+                                    root_f = strip_tmpl(r_[2:])
+                if not root_f.startswith(R + "Router::"):
+                    continue
+                mutating = e_["k"] == "assign" or lib.is_stl_mutation(e_) or (e_["k"] == "call" and (e_.get("callee") or "").startswith(R + "SegmentTreeNode::") and
+                                                                                (e_.get("callee") or "").rsplit("::", 1)[-1] in ("addRoute", "removeRoute"))
+                if mutating:
+                    out_.add(root_f)
+        return out_
+    ar = lib.single(prog, R + "Router::addRoute")
+    rr2 = lib.single(prog, R + "Router::removeRoute")
+    w_add, w_rem = router_members_written(ar), router_members_written(rr2)
+    ck.require(w_add, "Router::addRoute writes no member of Router")
+    for m_ in sorted(w_add):
+        ck.ob("C10-R8", "removeRoute-updates:%s" % m_.replace(R, ""), m_ in w_rem, rr2.loc, rr2,
+              "filed by addRoute, unfiled by removeRoute" if m_ in w_rem else
+              "%s is filled by Router::addRoute but never touched by Router::removeRoute: a removed route stays in it" % m_.replace(R, ""), structural=True)
 
     # ---------------- R4 ----------------
     for name in ("addRoute", "removeRoute", "route"):
